@@ -91,6 +91,7 @@ type kindFlow struct {
 	entry   KindSet // kinds at function entry (AllKinds unless this is the flow of a helper seen from its callers)
 	hasEnt  bool
 	subs    map[*ssa.Function]*kindFlow
+	kindVal func(ssa.Value) bool // values that ARE the subject's kind (a reflect.Kind parameter), compared with constants directly
 }
 
 // refine returns the kind sets on the true and false outcome of cond.
@@ -111,6 +112,21 @@ func (kf *kindFlow) refine(cond ssa.Value, cur KindSet) (t, f KindSet) {
 			if cc, ok := pair[0].(*ssa.Call); ok {
 				if kk, ok := pair[1].(*ssa.Const); ok {
 					call, k = cc, kk
+				}
+			}
+		}
+		if kf.kindVal != nil {
+			// `k == reflect.Int8` where k is the kind itself
+			for _, pair := range [][2]ssa.Value{{x.X, x.Y}, {x.Y, x.X}} {
+				if kk, ok := pair[1].(*ssa.Const); ok && kf.kindVal(pair[0]) && kk.Value != nil && kk.Value.Kind() == constant.Int {
+					kv, _ := constant.Int64Val(kk.Value)
+					if kv >= 0 && kv < nKinds {
+						eq, ne := cur&Kinds(int(kv)), cur&^Kinds(int(kv))
+						if x.Op == token.EQL {
+							return eq, ne
+						}
+						return ne, eq
+					}
 				}
 			}
 		}
